@@ -1,18 +1,7 @@
 import warnings; warnings.simplefilter('ignore')
-import cirq, numpy as np, traceback, random
-q=cirq.LineQubit.range(3)
-from contracts import C15_numeric as N
-rng=random.Random(13+4)
-# regenerate exactly as the stand-in does is complex; instead scan many random u for the two orders
-bad=0
-for seed in range(400):
-    u=cirq.testing.random_unitary(2, random_state=seed)
-    for nm,U in (('u x SWAP', np.kron(u, cirq.unitary(cirq.SWAP))), ('u4 x I', np.kron(cirq.testing.random_unitary(4, random_state=seed), np.eye(2))), ('I x u4', np.kron(np.eye(2), cirq.testing.random_unitary(4, random_state=seed)))):
-        for order in (q, [q[2],q[0],q[1]]):
-            try:
-                ops=list(cirq.quantum_shannon_decomposition(order, U))
-            except Exception as e:
-                bad+=1
-                if bad<=2:
-                    print(nm, seed, order, repr(e)); traceback.print_exc(limit=-4)
-print('bad',bad)
+import sys; sys.path.insert(0,'/verif')
+from contracts import C12_subcircuits as M
+r=M.standin_subcircuits('thorough',0)
+for f in r['_fails']:
+    if f['failed']=='simulate-raised':
+        print(f['clause'][:200]); print(f['args']['circuit'][:2500])
